@@ -194,7 +194,13 @@ def write_manifest():
     claimed = [p for p in allp if p in PROPS and any(p in g['props'] for g in groups)]
     checks = []
     for p in claimed:
-        m = PROPS[p]
+        m = dict(PROPS[p])
+        mine = [g for g in groups if p in g['props']]
+        nproof = sum(1 for g in mine if g['strength'] == 'proof')
+        if nproof == 0:
+            m['text'] = 'BOUNDED STAND-IN THROUGHOUT (no unbounded obligation group; every obligation is discharged for all inputs within the stated bounds only). ' + m['text']
+        elif nproof < len(mine):
+            m['text'] = 'MIXED: %d obligation groups are unbounded proofs, %d are bounded stand-ins (listed separately in the evidence). ' % (nproof, len(mine) - nproof) + m['text']
         checks.append({
             'property_id': p,
             'quick_cmd': 'bin/qv check %s --tier quick' % p,
